@@ -164,7 +164,7 @@ theorem addExpr_src (G : GLang) (c : GCfg) (root : Node) (origin : Option Node) 
       | none =>
         let g1 : GState := { (curG g cur).1 with srcNodes := (curG g cur).1.srcNodes ++ [(id, (curG g cur).2)] }
         match (if c.withTypes && (inCanon G ty || c.withNoncanonicalTypes) then
-            annotateType G c g1 root (curG g cur).2 ty false else .ok g1) with
+            annotateType G c g1 root (curG g cur).2 (normT G.store ty) false (some (inCanon G ty)) else .ok g1) with
         | .error e => .error e
         | .ok g2 => .ok (originG c origin g2 (curG g cur).2, (curG g cur).2) := by
   cases cur <;> rfl
@@ -179,9 +179,9 @@ theorem addExpr_op (G : GLang) (c : GCfg) (root : Node) (origin : Option Node) (
     (ty : Term) (cur : Option Nat) (im : Bool) :
     addExpr G c root origin g (.op name ty) cur im =
       let g1 := opTriples c root (curG g cur).1 (curG g cur).2 name
-      match (if c.withTypes && (c.withNoncanonicalTypes || inCanon G (outputType 1000 ty)) &&
+      match (if c.withTypes && (c.withNoncanonicalTypes || inCanon G (normT G.store (outputType 1000 ty))) &&
             (c.withIntermediateTypes || !im) then
-          annotateType G c g1 root (curG g cur).2 (outputType 1000 ty) true else .ok g1) with
+          annotateType G c g1 root (curG g cur).2 (normT G.store (outputType 1000 ty)) true else .ok g1) with
       | .error e => .error e
       | .ok g2 => .ok (originG c origin g2 (curG g cur).2, (curG g cur).2) := by
   cases cur <;> rfl
